@@ -105,7 +105,8 @@ class Value:
 
         def update(o, v):
             if isinstance(v, Value):
-                o.errors = v.errors
+                # (a handler that raised before stays on record)
+                o.errors = o.errors or v.errors
                 o.result = v.result
             elif v is not None:
                 o.result = True
@@ -113,7 +114,7 @@ class Value:
                 o.inform()
 
             if o.parent is not o:
-                o.parent.errors = o.errors
+                o.parent.errors = o.parent.errors or o.errors
                 o.parent.result = o.result
                 update(o.parent, v)
 
